@@ -481,6 +481,54 @@ func genOp(g *common.Gen) {
 	}
 }
 
+// genNested: a parent prefix with a route of its own and a single child prefix below it; the
+// child's route goes away (unregister, faces/destroy or the face closing), then the datasets are
+// read and the parent is registered again — the parent's entry must have survived.
+func genNested(g *common.Gen) {
+	r := g.R
+	parent := common.Pick(r, []string{"/8:61", "/8:62", "/8:61/8:62", "/"})
+	child := parent + "/8:78"
+	if parent == "/" {
+		child = "/8:78"
+	}
+	grand := ""
+	if r.Chance(1, 3) {
+		grand = child + "/8:79" // the child's route sits one level further down
+	}
+	x := common.Pick(r, []string{"2", "3"})
+	y := common.Pick(r, []string{"4", "5", "3"})
+	if y == x {
+		y = "4"
+	}
+	origin := common.Pick(r, []string{"", "", ";O=65"})
+	cmd := func(module, verb, params string, tail int) {
+		g.Op("cmd %d - %s %s %s %d %s", fA, pLocalhost, gc(module), gc(verb), tail, params)
+	}
+	leaf := child
+	if grand != "" {
+		leaf = grand
+	}
+	cmd("rib", "register", "N="+parent+";F="+x+";C=3", 1)
+	cmd("rib", "register", "N="+leaf+";F="+y+origin, 1)
+	switch r.Intn(4) {
+	case 0, 1:
+		cmd("rib", "unregister", "N="+leaf+";F="+y+origin, 1)
+	case 2:
+		cmd("faces", "destroy", "F="+y, 1)
+	default:
+		g.Op("close %s", y)
+	}
+	cmd("rib", "list", "-", 0)
+	cmd("fib", "list", "-", 0)
+	if r.Chance(1, 2) {
+		cmd("rib", "register", "N="+parent+";F="+common.Pick(r, []string{"2", "3", "6"})+";C=9", 1)
+	} else {
+		cmd("rib", "unregister", "N="+parent+";F="+x, 1)
+	}
+	cmd("rib", "list", "-", 0)
+	g.Stat("scenario.nested-prefix")
+}
+
 func gen(g *common.Gen) {
 	for i := 0; i < g.N; i++ {
 		lh := g.R.Intn(2)
@@ -488,7 +536,14 @@ func gen(g *common.Gen) {
 		g.Op("new lh=%d fib=%s", lh, alg)
 		g.Stat("config.lh" + fmt.Sprint(lh) + "." + alg)
 		n := g.R.Range(8, 16)
+		nestedAt := -1
+		if g.R.Chance(1, 3) {
+			nestedAt = g.R.Intn(n)
+		}
 		for k := 0; k < n; k++ {
+			if k == nestedAt {
+				genNested(g)
+			}
 			genOp(g)
 		}
 	}
